@@ -39,7 +39,7 @@ Proof.
   apply nodup_refs_spec in Hnd. change (refs_of db) with (rrefs db) in Hnd.
   unfold wf_policy in Hpol. apply andb_true_iff in Hpol. destruct Hpol as [Ht Hu].
   assert (Ht' : 1 <= p_trusted pol) by lia. assert (Hu' : p_trusted pol <= p_untrusted pol) by lia.
-  cbn [run_case] in Hrun. unfold select_notes in Hrun. cbn [prop_case].
+  cbn [run_case] in Hrun. unfold select_notes in Hrun. unfold prop_case; cbn [prop_case_s prop_case_t]; rewrite andb_true_r.
   destruct (e_anchor e) as [anchor|].
   - destruct obs as [ids|x|]; cbn [outcome_eqb] in Hrun; try discriminate.
     apply list_eqb_Z_eq in Hrun. subst ids.
@@ -158,7 +158,7 @@ Theorem bridge_lock db tip refs owner expiry obs post :
 Proof.
   intros Hwf Hrun. cbn [wf_case] in Hwf. unfold wf_db in Hwf. apply andb_true_iff in Hwf. destruct Hwf as [Hnd Hrows].
   apply nodup_refs_spec in Hnd. change (refs_of db) with (rrefs db) in Hnd.
-  cbn [run_case] in Hrun. cbn [prop_case].
+  cbn [run_case] in Hrun. unfold prop_case; cbn [prop_case_s prop_case_t]; rewrite andb_true_r.
   destruct (lock_outputs tip owner expiry refs db) as [db'|] eqn:E.
   - destruct obs as [n|x|]; try discriminate.
     apply andb_true_iff in Hrun. destruct Hrun as [Hn Hpost]. apply rows_eqb_eq in Hpost. subst post.
@@ -289,7 +289,7 @@ Proof.
   apply nodup_refs_spec in Hnd. change (refs_of db) with (rrefs db) in Hnd.
   unfold wf_policy in Hpol. apply andb_true_iff in Hpol. destruct Hpol as [Ht Hu].
   assert (Ht' : 1 <= p_trusted pol) by lia. assert (Hu' : p_trusted pol <= p_untrusted pol) by lia.
-  cbn [run_case] in Hrun. cbn [prop_case].
+  cbn [run_case] in Hrun. unfold prop_case; cbn [prop_case_s prop_case_t]; rewrite andb_true_r.
   destruct (propose_transfer (oracle_fn oracle) FUEL db e (Some (e_target e - 1)) acct pay sp oo permitted pol lp lock canon)
     as [steps_m|x|] eqn:E; destruct obs as [steps_o|y|]; cbn [outcome_eqb] in Hrun; try discriminate; try reflexivity;
     [|exfalso; eapply propose_transfer_no_panic; exact E].
@@ -320,7 +320,7 @@ Proof.
   (* what the theorem says about the model's step, at the anchor it binds and the caller's policy *)
   assert (Hm : exists a inputs,
      s_anchor sm = Some a /\ s_inputs sm = rrefs inputs /\ NoDup (rrefs inputs)
-     /\ s_in_value sm = sum_values inputs /\ s_tin sm = 0 /\ s_pay sm = pay /\ step_balanced sm = true
+     /\ s_in_value sm = sum_values inputs /\ s_tins sm = [] /\ s_pay sm = pay /\ step_balanced sm = true
      /\ forall r, In r inputs -> In r db /\ In (r_pool r) permitted
           /\ spendable (SC acct (r_pool r) (e_target e) a (tip_unscanned e (r_pool r) a) pol
                            (Some (overridable (LFPolicy lp)))) r = true).
@@ -353,7 +353,135 @@ Proof.
     + unfold all_spendable. apply forallb_forall. intros x Hx. destruct (Hin_so x Hx) as [r [Hr ->]].
       destruct (Hrows r Hr) as [Hdbr [_ Hs]]. rewrite (find_row_unique db r Hnd Hdbr). exact Hs.
     + rewrite (value_of_refs_perm db _ _ Hperm), Hi, value_of_rrefs; [lia | exact Hnd | intros r Hr; apply Hrows; exact Hr].
-    + lia.
+    + rewrite Hti in Htin. cbn in Htin. destruct (s_tins so) as [|z0 t0]; [reflexivity|]. exfalso.
+      pose proof (sort_z_perm (z0 :: t0)) as Hp0.
+      destruct (sort_z (z0 :: t0)); [apply Permutation_nil in Hp0; discriminate | discriminate].
     + unfold step_balanced, s_change in *. rewrite <- Hchs. lia.
   - lia.
+Qed.
+
+(** ** transparent cases *)
+From V.C08 Require Import ModelT ProofsT.
+
+Lemma nodup_z_spec l : nodup_z l = true <-> NoDup l.
+Proof.
+  induction l as [|x t IH]; cbn; [split; [constructor | reflexivity]|].
+  rewrite andb_true_iff, negb_true_iff, IH. split.
+  - intros [H1 H2]. constructor; [|exact H2]. intros Hin.
+    assert (existsb (Z.eqb x) t = true) by (apply existsb_exists; exists x; split; [exact Hin | lia]). congruence.
+  - intros H. inversion H as [|? ? Hn Ht]; subst. split; [|exact Ht].
+    destruct (existsb (Z.eqb x) t) eqn:E; [|reflexivity]. exfalso. apply Hn.
+    apply existsb_exists in E. destruct E as [y [Hy He]]. replace x with y by lia. exact Hy.
+Qed.
+
+Lemma find_utxo_unique udb u : NoDup (map u_id udb) -> In u udb -> find_utxo udb (u_id u) = Some u.
+Proof.
+  unfold find_utxo. induction udb as [|y t IH]; intros Hn Hin; [contradiction|].
+  cbn. inversion Hn as [|? ? Hy Ht]; subst. destruct (u_id y =? u_id u) eqn:E.
+  - destruct Hin as [->|Hin]; [reflexivity|]. exfalso. apply Hy. apply in_map_iff. exists u. split; [lia | exact Hin].
+  - destruct Hin as [->|Hin]; [lia | apply IH; assumption].
+Qed.
+
+Theorem bridge_tselect udb target addrs pol zc f lf obs :
+  wf_case (CTSelect udb target addrs pol zc f lf obs) = true ->
+  run_case (CTSelect udb target addrs pol zc f lf obs) = true ->
+  prop_case (CTSelect udb target addrs pol zc f lf obs) = true.
+Proof.
+  intros Hwf Hrun. cbn [wf_case] in Hwf. apply andb_true_iff in Hwf. destruct Hwf as [Hnd _].
+  apply nodup_z_spec in Hnd. cbn [run_case] in Hrun. unfold prop_case. cbn [prop_case_s prop_case_t andb].
+  destruct obs as [ids|x|]; cbn [outcome_eqb] in Hrun; try discriminate.
+  apply list_eqb_Z_eq in Hrun. subst ids.
+  set (l := select_utxos udb target addrs pol zc f lf) in *.
+  apply andb_true_iff. split.
+  - apply nodup_z_spec. eapply Permutation_NoDup; [symmetry; apply sort_z_perm|]. apply select_utxos_nodup. exact Hnd.
+  - apply forallb_forall. intros i Hi. apply (Permutation_in _ (sort_z_perm _)) in Hi.
+    apply in_map_iff in Hi. destruct Hi as [u [<- Hu]]. apply select_utxos_sound in Hu. destruct Hu as [Hin Hs].
+    rewrite (find_utxo_unique udb u Hnd Hin). destruct lf; exact Hs.
+Qed.
+
+Lemma propose_shielding_no_panic change udb e tip threshold addrs pol zc f lp iw lock :
+  propose_shielding change udb e tip threshold addrs pol zc f lp iw lock <> Panic.
+Proof.
+  unfold propose_shielding. destruct (e_anchor e); [|discriminate].
+  unfold gather. destruct (_ && _); [discriminate|].
+  unfold shielding_balance. destruct (change _) as [cs fee|r|d|]; try discriminate.
+  - destruct (_ <=? _); [|discriminate]. unfold shield_step.
+    destruct (_ =? 0); [discriminate|]. destruct (iw && _); [discriminate|]. destruct (_ =? _); [|discriminate].
+    destruct lock as [[o fb]|]; [destruct (lock_utxos_ok _ _ _ _)|]; discriminate.
+  - destruct (change _) as [cs fee| | |]; try discriminate.
+    destruct (_ <=? _); [|discriminate]. unfold shield_step.
+    destruct (_ =? 0); [discriminate|]. destruct (iw && _); [discriminate|]. destruct (_ =? _); [|discriminate].
+    destruct lock as [[o fb]|]; [destruct (lock_utxos_ok _ _ _ _)|]; discriminate.
+Qed.
+
+Lemma sum_utxos_nonneg l : (forall u, In u l -> 0 <= u_value u) -> 0 <= sum_utxos l.
+Proof.
+  unfold sum_utxos. induction l as [|x t IH]; intros Hv; cbn; [lia|].
+  specialize (Hv x (or_introl eq_refl)) as Hx.
+  assert (0 <= fold_right (fun u a => u_value u + a) 0 t) by (apply IH; intros u Hu; apply Hv; right; exact Hu). lia.
+Qed.
+
+Lemma sum_utxos_pos inputs :
+  (forall u, In u inputs -> 5000 < u_value u) -> sum_utxos inputs <> 0 -> 0 < sum_utxos inputs.
+Proof.
+  intros Hv Hne. assert (0 <= sum_utxos inputs); [|lia].
+  apply sum_utxos_nonneg. intros u Hu. specialize (Hv u Hu). lia.
+Qed.
+
+Lemma value_of_utxo_ids udb inputs :
+  NoDup (map u_id udb) -> (forall u, In u inputs -> In u udb) ->
+  fold_right (fun i a => match find_utxo udb i with Some u => u_value u + a | None => a end) 0 (map u_id inputs)
+  = sum_utxos inputs.
+Proof.
+  intros Hn. unfold sum_utxos. induction inputs as [|x t IH]; intros Hsub; [reflexivity|]. cbn [map fold_right].
+  rewrite (find_utxo_unique udb x Hn (Hsub x (or_introl eq_refl))).
+  rewrite IH by (intros y Hy; apply Hsub; right; exact Hy). reflexivity.
+Qed.
+
+Lemma fold_ids_perm udb a b : Permutation a b ->
+  fold_right (fun i acc => match find_utxo udb i with Some u => u_value u + acc | None => acc end) 0 a
+  = fold_right (fun i acc => match find_utxo udb i with Some u => u_value u + acc | None => acc end) 0 b.
+Proof.
+  induction 1; cbn; try lia.
+  - destruct (find_utxo udb x); lia.
+  - destruct (find_utxo udb x), (find_utxo udb y); lia.
+Qed.
+
+Theorem bridge_shield udb e threshold addrs pol zc f lp iw lock oracle obs :
+  wf_case (CShield udb e threshold addrs pol zc f lp iw lock oracle obs) = true ->
+  run_case (CShield udb e threshold addrs pol zc f lp iw lock oracle obs) = true ->
+  prop_case (CShield udb e threshold addrs pol zc f lp iw lock oracle obs) = true.
+Proof.
+  intros Hwf Hrun. cbn [wf_case] in Hwf. rewrite !andb_true_iff in Hwf. destruct Hwf as [[Hnd _] _].
+  apply nodup_z_spec in Hnd. cbn [run_case] in Hrun. unfold prop_case. cbn [prop_case_s prop_case_t andb].
+  destruct (propose_shielding (toracle_fn oracle) udb e (Some (e_target e - 1)) threshold addrs pol zc f lp iw lock)
+    as [steps_m|x|] eqn:E; destruct obs as [steps_o|y|]; cbn [outcome_eqb] in Hrun; try discriminate; try reflexivity;
+    [|exfalso; eapply propose_shielding_no_panic; exact E].
+  destruct (propose_shielding_sound _ _ _ _ _ _ _ _ _ _ _ _ _ Hnd E) as [sm [-> Hok]].
+  destruct steps_o as [|so [|? ?]]; cbn [list_eqb] in Hrun; try discriminate;
+    [|rewrite andb_false_r in Hrun; discriminate].
+  rewrite andb_true_r in Hrun. unfold step_eqb in Hrun. rewrite !andb_true_iff in Hrun.
+  destruct Hrun as [[[[[[Hin Hval] Htin] Hpay] Hch] Hfee] Hanc].
+  destruct Hok as [inputs [Hi [Hti [Hni [Hrows [Hv [Hne [Hp [Hbal [Hth Ha]]]]]]]]]].
+  apply refs_eqb_eq in Hin. rewrite Hi in Hin. cbn in Hin.
+  assert (Hso_in : s_inputs so = []).
+  { pose proof (sort_refs_perm (s_inputs so)) as P. rewrite <- Hin in P. apply Permutation_nil in P. exact P. }
+  apply list_eqb_Z_eq in Htin.
+  assert (Hperm : Permutation (s_tins so) (map u_id inputs)).
+  { rewrite <- (sort_z_perm (s_tins so)), <- Htin, Hti. apply sort_z_perm. }
+  assert (Hchs : s_changes sm = s_changes so).
+  { apply (list_eqb_spec (fun x y => cpool_eqb (fst x) (fst y) && (snd x =? snd y))); [|exact Hch].
+    intros [c1 v1] [c2 v2]. cbn. rewrite andb_true_iff.
+    split; [intros [H1 H2]; f_equal; [|lia]; destruct c1, c2; cbn in H1; try discriminate; [apply pool_eqb_eq in H1; congruence | reflexivity]
+           | intros H; inversion H; subst; split; [destruct c2; cbn; [apply pool_eqb_eq; reflexivity | reflexivity] | lia]]. }
+  rewrite Hso_in. rewrite !andb_true_iff. cbn [andb]. repeat split.
+  - apply nodup_z_spec. eapply Permutation_NoDup; [symmetry; exact Hperm | exact Hni].
+  - apply forallb_forall. intros i Hi'. apply (Permutation_in _ Hperm) in Hi'. apply in_map_iff in Hi'.
+    destruct Hi' as [u [<- Hu]]. destruct (Hrows u Hu) as [Hdb Hs]. rewrite (find_utxo_unique udb u Hnd Hdb). exact Hs.
+  - rewrite (fold_ids_perm udb _ _ Hperm), value_of_utxo_ids; [lia | exact Hnd | intros u Hu; apply Hrows; exact Hu].
+  - assert (0 < sum_utxos inputs); [|lia]. apply sum_utxos_pos; [|lia].
+    intros u Hu. destruct (Hrows u Hu) as [_ Hs]. unfold utxo_spendable in Hs. rewrite !andb_true_iff in Hs. lia.
+  - lia.
+  - unfold step_balanced, s_change in *. rewrite <- Hchs. lia.
+  - unfold s_change in *. rewrite <- Hchs. lia.
 Qed.
